@@ -10,12 +10,14 @@
 extern "C" size_t cjet_get_alloc_size(void) __attribute__((weak));
 extern "C" int get_number_of_peers(void) __attribute__((weak));
 
+static std::string idkey(const JV &id);
+
 void World::violation(const std::string &prop_in, const std::string &rule_in, const std::string &detail) {
 	if (res.violated || done) return;
 	std::string prop = prop_in, rule = rule_in;
 	// containment profile: what the reference model expects for healthy peers *is* the property; keep the originating rule visible
 	std::string rl = plan.hdr.gets("relabel");
-	if (!rl.empty() && (prop == "C01" || prop == "C02" || prop == "C03" || prop == "C04" || prop == "C05" || prop == "C14")) { rule = prop + ":" + rule; prop = rl; }
+	if (!rl.empty() && (prop == "C01" || prop == "C02" || prop == "C03" || prop == "C04" || prop == "C05" || prop == "C14" || (rl == "C15" && (prop == "C07" || prop == "C10" || prop == "C12" || prop == "C13" || prop == "C16" || prop == "C08" || prop == "C11")))) { rule = prop + ":" + rule; prop = rl; }
 	res.violated = true; res.v.prop = prop; res.v.rule = rule; res.v.detail = detail;
 	finish(0);
 	bail();
@@ -52,7 +54,7 @@ void World::feed_input(const Input &in) {
 		res.st.msgs_consumed++;
 		if (cl) cl->msgs_in++;
 		last_fed_client = in.c;
-		if (mode == "exact") { if (cl && !cl->no_expect && !model.on_message(in.c, in.text)) cl->closing = true; }
+		if (mode == "exact") { if (cl && !cl->no_expect) { ledger_request(*cl, in.text); if (!model.on_message(in.c, in.text)) cl->closing = true; } }
 		else if (mode == "ledger" && cl) ledger_request(*cl, in.text);
 		break;
 	case Input::WSFRAME:
@@ -61,7 +63,7 @@ void World::feed_input(const Input &in) {
 			probe("ws_in_class:" + std::to_string(in.wscls));
 			bool can_see = cl && !cl->client_closed;
 			switch (in.wscls) {
-			case W_TEXT: res.st.msgs_consumed++; model.on_message(in.c, in.wf.payload); break;
+			case W_TEXT: res.st.msgs_consumed++; if (cl) ledger_request(*cl, in.wf.payload); model.on_message(in.c, in.wf.payload); break;
 			case W_PING: { probe("ws_ping"); if (wsstrict) { Exp e; e.kind = Exp::PONG; e.path = in.wf.payload; e.prop = "C12"; e.group = ++model.group_ctr; e.why = "pong for ping"; expect(in.c, e); } break; }
 			case W_PONG: probe("ws_pong_in"); break;
 			case W_CLOSE_OK: probe("ws_close_valid"); model.on_peer_gone(in.c, true, 0, wsstrict && can_see, wsstrict ? "C12" : "C05"); if (cl) cl->closing = !wsstrict; break;
@@ -314,6 +316,7 @@ void World::resolve_silent_decisions() {
 
 void World::after_match(Client &cl, const Exp &e, const Frame &f) {
 	int d = e.decision;
+	if (e.kind == Exp::RESP) { const JV *id = f.j.get("id"); if (id && (id->t == JV::Str || id->t == JV::Num)) { auto it = cl.ledger.find(idkey(*id)); if (it != cl.ledger.end() && it->second > 0) it->second--; } }
 	if (e.kind == Exp::ROUTED) model.on_routed_seen(e.routed_ref, f.j.gets("id"));
 	if (d >= 0 && d < (int)model.decisions.size() && model.decisions[d].state == 0) {
 		bool decided = false, ok = false;
@@ -367,6 +370,7 @@ void World::on_frame(Client &cl, const Frame &f) {
 			return;
 		}
 		if (want == "any") return;
+		if (cl.hs_sent && !cl.no_expect && mode != "none" && fault_turn >= 0 && f.http_status >= 500) { probe("upgrade_refused_after_injected_fault"); return; }
 		if (cl.hs_sent && !cl.no_expect && mode != "none") {
 			if (f.http_status != 101) violation("C12", "valid-upgrade-refused", "a valid upgrade request was answered with status " + std::to_string(f.http_status));
 			std::string key = cl.policy.gets("wskey");
@@ -518,6 +522,13 @@ static std::string idkey(const JV &id) {
 
 void World::ledger_request(Client &cl, const std::string &text) {
 	JV j;
+	if (mode == "exact") {
+		// exact mode keeps the ledger only so that it is correct if the run has to fall back to it (allocation-failure injection)
+		if (!json_parse(text, j) || j.t != JV::Obj) return;
+		const JV *id = j.get("id");
+		if (id && j.has("method") && (id->t == JV::Str || id->t == JV::Num)) { cl.ledger[idkey(*id)]++; cl.ledger_turn[idkey(*id)] = (long)res.st.batches; }
+		return;
+	}
 	if (!json_parse(text, j)) {
 		// the harness parser is strict, the daemon's is lenient: what it makes of this text is not predictable, so only survival is checked on this connection from here on
 		cl.policy.set("maydrop", JV::boolean(true)); cl.no_expect = true; probe("ledger_unparsable_message"); return;
@@ -529,7 +540,7 @@ void World::ledger_request(Client &cl, const std::string &text) {
 		bool is_req = false, is_resp = false;
 		for (auto &kv : o.o) { std::string k = kv.first; for (auto &ch : k) ch = (char)tolower((unsigned char)ch); if (k == "method") is_req = true; else if (k == "result" || k == "error") is_resp = true; }
 		if (!is_req && is_resp) { probe("response_as_request"); if (!id || id->t != JV::Str) return false; return true; }
-		if (id && (id->t == JV::Str || id->t == JV::Num)) { cl.ledger[idkey(*id)]++; probe("ledger_request"); if (id->t == JV::Num && id->d != std::floor(id->d)) probe("id_fraction"); if (id->t == JV::Num && (id->d > 2147483647.0 || id->d < -2147483648.0)) probe("id_beyond_int"); }
+		if (id && (id->t == JV::Str || id->t == JV::Num)) { cl.ledger[idkey(*id)]++; cl.ledger_turn[idkey(*id)] = (long)res.st.batches; probe("ledger_request"); if (id->t == JV::Num && id->d != std::floor(id->d)) probe("id_fraction"); if (id->t == JV::Num && (id->d > 2147483647.0 || id->d < -2147483648.0)) probe("id_beyond_int"); }
 		else probe("no_id_request");
 		return true;
 	};
@@ -579,7 +590,7 @@ void World::client_reaction(Client &cl, const Frame &f) {
 // ------------------------------------------------------------------ accounting (C07)
 void World::record_baseline() {
 	base_alloc = cjet_get_alloc_size ? cjet_get_alloc_size() : 0;
-	base_live_blocks = g_arena.live_blocks; base_live_bytes = g_arena.live_bytes;
+	base_live_blocks = g_arena.live_blocks; base_live_bytes = g_arena.live_bytes; base_last_seq = g_arena.nallocs;
 	base_peers = get_number_of_peers ? get_number_of_peers() : 0;
 	base_fds.clear();
 	for (auto &k : g_kernel.fds) if (k.open) base_fds.push_back(k.fd);
@@ -589,8 +600,10 @@ void World::record_baseline() {
 void World::check_idle_baseline() {
 	probe("idle_baseline_checked");
 	std::string bp = plan.hdr.gets("baseprop", "C07");
+	std::string leaked;
+	{ int n = 0; for (auto &b : g_arena.blocks) if (b.live && b.seq > base_last_seq) { if (n++ < 6) leaked += " #" + std::to_string(b.seq) + "(" + std::to_string(b.size) + "B)"; } if (n > 6) leaked += " ..."; }
 	if (cjet_get_alloc_size && cjet_get_alloc_size() != base_alloc)
-		violation(bp, "heap-not-at-baseline", "accounted heap is " + std::to_string(cjet_get_alloc_size()) + " bytes with no connection left, idle baseline was " + std::to_string(base_alloc));
+		violation(bp, "heap-not-at-baseline", "accounted heap is " + std::to_string(cjet_get_alloc_size()) + " bytes with no connection left, idle baseline was " + std::to_string(base_alloc) + "; live allocations made since:" + leaked);
 	if (get_number_of_peers && get_number_of_peers() != base_peers)
 		violation(bp, "peer-count-not-at-baseline", "peer count " + std::to_string(get_number_of_peers()) + " with no connection left");
 	for (auto &k : g_kernel.fds) {
@@ -614,8 +627,10 @@ void World::check_exit() {
 		const char *kn = k.kind == FD_TIMER ? "timerfd" : k.kind == FD_STREAM ? "connection" : k.kind == FD_LISTEN ? "listener" : k.kind == FD_EPOLL ? "epoll" : k.kind == FD_FILE ? "file" : "descriptor";
 		violation("C07", std::string("fd-open-at-exit/") + kn, std::string("a ") + kn + " descriptor is still open when main() returns");
 	}
-	if (g_arena.live_blocks != 0)
-		violation("C07", "memory-at-exit", std::to_string(g_arena.live_blocks) + " allocations (" + std::to_string(g_arena.live_bytes) + " bytes) still live when main() returns");
+	if (g_arena.live_blocks != 0) {
+		std::string leaked; int n = 0; for (auto &b : g_arena.blocks) if (b.live) { if (n++ < 6) leaked += " #" + std::to_string(b.seq) + "(" + std::to_string(b.size) + "B)"; }
+		violation("C07", "memory-at-exit", std::to_string(g_arena.live_blocks) + " allocations (" + std::to_string(g_arena.live_bytes) + " bytes) still live when main() returns:" + leaked);
+	}
 	probe("exit_checked");
 }
 
